@@ -166,6 +166,23 @@ func main() {
 			}
 		}
 		lockedHoldsNothing("after the concurrent storm")
+		// quiescent: the queries agree with one another - what one call lists, another counts and a third finds
+		listingsAgree := func(when string) {
+			h.Res.OracleEvals++
+			_, ks := kmc.VerifDump()
+			byName := map[string]int{}
+			for _, k := range ks {
+				byName[k.Name] = len(k.Addrs)
+			}
+			for _, am := range kmc.GetManagedAddrManager() {
+				ext, in := am.CountAddresses()
+				nl, nm := len(am.ListAddresses()), len(am.ManagedAddresses())
+				if nl != ext+in || nm != ext+in || byName[am.Name()] != ext+in {
+					h.FailWith("C14:queries-disagree-after-concurrent-use", fmt.Sprintf("%s keystore %s: ListAddresses shows %d, ManagedAddresses %d, CountAddresses %d+%d, the address table %d", when, am.Name(), nl, nm, ext, in, byName[am.Name()]), nil)
+				}
+			}
+		}
+		listingsAgree("after the concurrent storm")
 		// key issuance against one Lock(): whichever way they interleave, a locked wallet holds no private key afterwards
 		for rep := 0; rep < 12; rep++ {
 			kmc.Unlock(priv)
@@ -188,8 +205,20 @@ func main() {
 			}
 			iw.Add(1)
 			go func() { defer iw.Done(); time.Sleep(delay); kmc.Lock() }()
+			iw.Add(1)
+			go func() {
+				defer iw.Done()
+				for i := 0; i < 40; i++ {
+					for _, am := range kmc.GetManagedAddrManager() {
+						am.ListAddresses()
+						am.ManagedAddresses()
+					}
+					time.Sleep(100 * time.Microsecond)
+				}
+			}()
 			iw.Wait()
 			lockedHoldsNothing("after key requests concurrent with one Lock()")
+			listingsAgree("after key requests concurrent with listings")
 		}
 		// signers against a goroutine that locks and unlocks the wallet: every signature that comes back without an
 		// error must verify under the requested key (C05), whatever the interleaving
